@@ -259,6 +259,19 @@ func (f *fields) dict() map[string]value {
 	return f.d
 }
 
+// sortedKeys returns the names of the dictionary entries in sorted order. Loops
+// whose outcome can depend on the visiting order (first error reported,
+// variables resolved first) use it, so results do not depend on the order in
+// which the runtime enumerates a map.
+func sortedKeys(d map[string]value) []string {
+	keys := make([]string, 0, len(d))
+	for k := range d {
+		keys = append(keys, k)
+	}
+	sort.Strings(keys)
+	return keys
+}
+
 func (f *fields) array() []value {
 	return f.a
 }
